@@ -2,7 +2,11 @@
 # Regenerates MANIFEST.json from the table below (kept in one place so it stays valid).
 import json
 ENV = "GOFLAGS=-mod=mod GOPROXY=off GOSUMDB=off GOTOOLCHAIN=local"
+import subprocess
+hook_commits = subprocess.run(["git","-C","/repo","log","--format=%h","--grep=^verif hooks"],capture_output=True,text=True).stdout.split()
 claimed = {
+ "C01": ("No-panic sweep (bounds, nil, type-assertion, division, explicit panic, extern preconditions) with Houdini-inferred loop invariants over every function of the lexer and the document-sync code, helper preconditions checked at every call site, type invariant of Lexer re-established at every exit; each obligation holds for all inputs of any length.",
+         "Partial: covers the listed packages only (evidence lists the functions); termination only where variant obligations are listed; parser recursion depth, analysis passes, goroutines and jrpc2 are outside (DESIGN.md C01).", "5.C01"),
  "C13": ("isUtf8/preNUm/ConvertStrToUtf8 against a structural UTF-8 spec (rec predicate V with generator-instantiated unfolding axiom): valid UTF-8 is accepted and returned unaltered; preNUm == leading-ones for all 256 bytes; unbounded in the input length.",
          "Trusted: strbytesconv (unsafe) contracts; GBK decoder library. Not decided: hover label rendering, which comment is attached (see DESIGN.md C13).", "5.C13"),
  "C02": ("offsetForStartAndEnd proved equal to the LSP position semantics (spec functions B/L/C: LF/CRLF/CR line ends, UTF-16 columns) for all well-formed UTF-8 texts of any length, by loop invariant + variant; the closure getCharBytes proved == leading-ones.",
@@ -37,7 +41,5 @@ m = {
  "not_applicable": [{"property_id": k, "reason": v} for k,v in sorted(na.items())] +
                    [{"property_id": k, "reason": "not claimed yet: contracts for this property are not built (work in progress)"} for k in pending if k not in claimed],
 }
-try:
-    old = json.load(open("MANIFEST.json")); m["hooks"]["source_commits"] = old["hooks"].get("source_commits", [])
-except Exception: pass
+m["hooks"]["source_commits"] = hook_commits[::-1]
 json.dump(m, open("MANIFEST.json","w"), indent=1)
